@@ -293,7 +293,7 @@ theorem step_b2_some {cfg : Cfg} {t : Req} {a : Asm} {cur : Req} {r : Resp} {b :
     step cfg (.b2 t a cur) r =
       if szxGrows cur b then .done (.error .unexpectedBlock2)
       else if r.code ≠ a.code then .done (.error .unexpectedBlock2)
-      else if !b.validFor r.payload.length then .done (.error .unexpectedBlock2)
+      else if !b.okFor r.payload.length then .done (.error .unexpectedBlock2)
       else if b.start ≠ a.payload.length then .done (.error .notImplemented)
       else if r.etag ≠ a.etag then .done (.error .resourceChanged)
       else if !b.more then .done (.ok { code := a.code, etag := a.etag, payload := a.payload ++ r.payload })
@@ -310,7 +310,7 @@ theorem completeBlock2_some {cfg : Cfg} {t : Req} {r : Resp} {b : BlockOpt} (h :
       else if szxGrows t b then .done (.error .unexpectedBlock2)
       else if !b.more then .done (.ok (bodyOf r))
       else if b.num ≠ 0 then .done (.error .unexpectedBlock2)
-      else if !b.validFor r.payload.length then .done (.error .unexpectedBlock2)
+      else if !b.okFor r.payload.length then .done (.error .unexpectedBlock2)
       else enterB2 cfg t { code := r.code, etag := r.etag, payload := r.payload, block2 := b } := by
   simp only [completeBlock2, h]
 end Aiocoap.BwClient
